@@ -388,6 +388,215 @@ theorem dsb_position_matters_to_the_quic_loop :
     ((runItems Rec.tls QM o ⟨[], [], []⟩ [.frame dg, .dsb [9]]).quic.map fun s => s.st.log.map (·.2.2.2)) = [[0]] := by
   decide +kernel
 
+/-! #### every session reads the key log through two filters only -/
+
+/-- two key logs no session can tell apart: `find_session_secrets` (TLS) and the `bytes.fromhex(client_random) == …`
+    filter of `set_tls_decryptors` (QUIC) return the same lines for every client random. Literally equal key lists are
+    alike; so are lists that differ in the order of lines of DIFFERENT client randoms (`sameView_of_perm_across`). -/
+def SameView (kl₁ kl₂ : List Keylog.Key) : Prop :=
+  SameSecrets kl₁ kl₂ ∧ ∀ cr, quicSessionKeys kl₁ cr = quicSessionKeys kl₂ cr
+
+theorem SameView.rfl' (kl : List Keylog.Key) : SameView kl kl := ⟨fun _ => rfl, fun _ => rfl⟩
+
+theorem devQuic_congr {kl₁ kl₂ : List Keylog.Key} (h : ∀ cr, quicSessionKeys kl₁ cr = quicSessionKeys kl₂ cr) :
+    QuicPipeline.devQuic H kl₁ = QuicPipeline.devQuic H kl₂ := by
+  funext sel v cr
+  unfold QuicPipeline.devQuic
+  rw [h]
+
+theorem params_congr {kl₁ kl₂ : List Keylog.Key} (h : ∀ cr, quicSessionKeys kl₁ cr = quicSessionKeys kl₂ cr) :
+    QuicPipeline.params H P kl₁ = QuicPipeline.params H P kl₂ := by
+  have e := devQuic_congr H h
+  have e2 : QuicPipeline.tlsClearNewData H kl₁ = QuicPipeline.tlsClearNewData H kl₂ := by
+    funext t
+    unfold QuicPipeline.tlsClearNewData
+    rw [e]
+  unfold QuicPipeline.params
+  rw [e, e2]
+
+theorem quic_feed_congr {kl₁ kl₂ : List Keylog.Key} (h : ∀ cr, quicSessionKeys kl₁ cr = quicSessionKeys kl₂ cr)
+    (c : QuicPipeline.QConn) (p : Pkt) (d : Bytes) (v : Version) :
+    (QuicPipeline.quicMachine mask H P info).feed c kl₁ p d v = (QuicPipeline.quicMachine mask H P info).feed c kl₂ p d v := by
+  simp only [QuicPipeline.quicMachine, params_congr H P h]
+
+section Generic
+variable {κ τ ο : Type}
+
+theorem quicHandleH_congr (M : QuicMachine κ τ ο) (o : Opts) (k₁ k₂ : List κ)
+    (hf : ∀ c p d v, M.feed c k₁ p d v = M.feed c k₂ p d v) (h : Hdr) (ss : List (QuicSess τ)) (p : Pkt) :
+    quicHandleH M o k₁ h ss p = quicHandleH M o k₂ h ss p := by
+  unfold quicHandleH
+  split
+  · rfl
+  · induction ss with
+    | nil => simp only [quicLoop, quicNew, hf]
+    | cons s rest ih =>
+      simp only [quicLoop, hf, ih]
+
+theorem classify_frame_not_keys (o : Opts) (p : Pkt) (ks : List κ) : classify o (.frame p : Item κ) ≠ .keys ks := by
+  simp only [classify]
+  cases p.l4 with
+  | tcp =>
+    simp only
+    by_cases h1 : p.payload.length = 0
+    · simp [h1]
+    · by_cases h2 : (o.checksumTest && !p.csumOk) = true <;> simp [h1, h2]
+  | udp =>
+    simp only
+    cases p.payload with
+    | nil => simp
+    | cons b0 r =>
+      simp only
+      by_cases h2 : (o.checksumTest && !p.csumOk) = true
+      · simp [h2]
+      · by_cases h3 : ((b0.toNat &&& 0x40) >>> 6 = 1 || o.greasy) = true <;> simp [h2, h3]
+  | other => simp
+
+/-- a stretch of frames (no DSB) run with two key logs the machine cannot tell apart -/
+theorem quicRun_frames_congr (M : QuicMachine κ τ ο) (o : Opts) (k₁ k₂ : List κ)
+    (hf : ∀ c p d v, M.feed c k₁ p d v = M.feed c k₂ p d v) (F : List Pkt) :
+    ∀ ss, quicRun M o ss (quicView o k₁ (F.map Item.frame)) = quicRun M o ss (quicView o k₂ (F.map Item.frame)) := by
+  induction F with
+  | nil => intro ss; rfl
+  | cons p F ih =>
+    intro ss
+    simp only [List.map_cons, quicView]
+    cases hc : classify o (.frame p : Item κ) with
+    | keys ks => exact absurd hc (classify_frame_not_keys o p ks)
+    | tls q => exact ih ss
+    | ignore w => exact ih ss
+    | quic q b0 r =>
+      simp only [quicRun, List.foldl_cons] at ih ⊢
+      rw [quicHandleH_congr M o k₁ k₂ hf]
+      exact ih _
+
+theorem quicView_dsbs (o : Opts) (kl : List κ) (D : List (List κ)) (rest : List (Item κ)) :
+    quicView o kl (D.map Item.dsb ++ rest) = quicView o (kl ++ D.flatten) rest := by
+  induction D generalizing kl with
+  | nil => simp
+  | cons d D ih =>
+    simp only [List.map_cons, List.cons_append, quicView, classify, List.flatten_cons]
+    rw [ih, List.append_assoc]
+
+end Generic
+
+/-- **C09, whole program (what `run()` hands to the writer).** The same packets `F`, the secrets delivered in two ways:
+    an `-s` file (`fk`) and any number of DSBs at the head of the capture (`D`: one key list per block) on either side.
+    If the two resulting key logs are alike for every session (`SameView`: in particular when they are the same list —
+    `-s` file ↔ one DSB ↔ several DSBs cut at line boundaries ↔ file + DSB, LF ↔ CRLF, comment / blank / foreign lines
+    added or removed: `delivery_keys`, `delivery_same_keys_*` —, or differ by moving lines of different client randoms
+    past each other), then TLS and QUIC export the same frames in the same order. -/
+theorem export_key_delivery_independent (prior : Export.Prior) (args : Args) (fk₁ fk₂ : Option (List Keylog.Key))
+    (D₁ D₂ : List (List Keylog.Key)) (F : List Pkt)
+    (hv : SameView (fk₁.getD [] ++ D₁.flatten) (fk₂.getD [] ++ D₂.flatten)) :
+    framesFrom mask H P prior args fk₁ (D₁.map Item.dsb ++ F.map Item.frame) info =
+      framesFrom mask H P prior args fk₂ (D₂.map Item.dsb ++ F.map Item.frame) info := by
+  cases ho : optsOf args with
+  | none =>
+    -- an unusable `-p` / `-m`: both runs stop with the same message
+    have hb : ∀ fk xs, framesFrom mask H P prior args fk xs info = framesFrom mask H P prior args none [] info := by
+      intro fk xs
+      unfold optsOf at ho
+      unfold framesFrom runFrom body
+      rw [Props.C18.reset_is_fresh]
+      have hsp : (freshState : Export.Prior).serverPorts = Options.Src.builtin := rfl
+      rw [hsp]
+      cases hpm : Options.getPortMap Options.Src.bare args.mArg with
+      | error e => rfl
+      | ok pm =>
+        rw [hpm] at ho
+        simp only at ho ⊢
+        cases hp : Options.serverPorts Options.Src.builtin Options.Src.pDefault args.pArg with
+        | error e => rfl
+        | ok ports => rw [hp] at ho; cases ho
+    rw [hb, hb fk₂]
+  | some o =>
+    have hd : ∀ (D : List (List Keylog.Key)), dsbOnly (D.map Item.dsb ++ F.map Item.frame) = D.flatten := by
+      intro D
+      induction D with
+      | nil =>
+        simp only [List.map_nil, List.nil_append, List.flatten_nil]
+        induction F with
+        | nil => rfl
+        | cons p F ih => simpa [dsbOnly] using ih
+      | cons d D ih => simp only [List.map_cons, List.cons_append, List.flatten_cons, ← ih]; simp [dsbOnly]
+    have hf : ∀ (D : List (List Keylog.Key)), framesOf (D.map Item.dsb ++ F.map Item.frame) = F := by
+      intro D
+      simp [framesOf, List.filterMap_append, List.filterMap_map, Function.comp_def, Lemmas.Export.frameOf?]
+    rw [framesFrom_explicit mask H P info prior args fk₁ _ o ho, framesFrom_explicit mask H P info prior args fk₂ _ o ho,
+      dsb_position_irrelevant_tls H P info o fk₁ fk₂ _ _ ((hf D₁).trans (hf D₂).symm)
+        (by simp only [keysOf, hd]; exact hv.1)]
+    congr 2
+    unfold quicFrames
+    rw [quicView_dsbs, quicView_dsbs]
+    congr 1
+    exact quicRun_frames_congr _ o _ _ (quic_feed_congr mask H P info hv.2) F []
+
+/-- lines of different client randoms may change places: both filters keep the relative order of the lines they keep -/
+theorem sameView_of_perm_across (a b c d : List Keylog.Key)
+    (hcr : ∀ x ∈ b, ∀ y ∈ c, ∀ cr, ¬ ((lower x.clientRandom == lower (hexOf cr)) = true ∧
+        (lower y.clientRandom == lower (hexOf cr)) = true) ∧
+      ¬ (fromHex x.clientRandom = some cr ∧ fromHex y.clientRandom = some cr)) :
+    SameView (a ++ b ++ c ++ d) (a ++ c ++ b ++ d) := by
+  have key : ∀ (f : Keylog.Key → Bool), (∀ x ∈ b, ∀ y ∈ c, ¬ (f x = true ∧ f y = true)) →
+      (a ++ b ++ c ++ d).filter f = (a ++ c ++ b ++ d).filter f := by
+    intro f hf
+    simp only [List.filter_append, List.append_assoc]
+    congr 1
+    rw [← List.append_assoc, ← List.append_assoc (c.filter f)]
+    congr 1
+    by_cases hb : b.filter f = []
+    · rw [hb]; simp
+    · have hcn : c.filter f = [] := by
+        rw [List.filter_eq_nil_iff]
+        intro y hy hfy
+        obtain ⟨x, hx⟩ := List.exists_mem_of_ne_nil _ hb
+        rw [List.mem_filter] at hx
+        exact hf x hx.1 y hy ⟨hx.2, hfy⟩
+      rw [hcn]; simp
+  refine ⟨fun cr => ?_, fun cr => ?_⟩
+  · exact key _ (fun x hx y hy => (hcr x hx y hy cr).1)
+  · unfold quicSessionKeys
+    have hall : ((a ++ b ++ c ++ d).all fun k => (fromHex k.clientRandom).isSome) =
+        ((a ++ c ++ b ++ d).all fun k => (fromHex k.clientRandom).isSome) := by
+      simp only [List.all_append, Bool.and_assoc]
+      congr 1
+      rw [← Bool.and_assoc, ← Bool.and_assoc, Bool.and_comm (b.all _)]
+    rw [hall]
+    split
+    · congr 1
+      exact key _ (fun x hx y hy h => (hcr x hx y hy cr).2 ⟨by simpa using h.1, by simpa using h.2⟩)
+    · rfl
+
+/-! #### from texts to key lists (`Props.C09`, `Props.C09Found`) -/
+
+/-- the key log of a run: the parse of ONE text — the `-s` file as text mode delivers it, then the DSB texts -/
+theorem delivery_keys (file : Option Str) (dsbs : List Str) :
+    (fileKeysOf file).getD [] ++ (dsbs.map (getKeysFromString srcHexClass)).flatten =
+      getKeysFromString srcHexClass (C09.sourceText file dsbs) := by
+  unfold C09.sourceText
+  rw [← C09.parse_pieces_eq_parse_joined]
+  cases file with
+  | none => simp [fileKeysOf, List.flatMap_def]
+  | some t => simp [fileKeysOf, List.flatMap_def]
+
+/-- so two deliveries whose texts differ only in where CRs stand (LF ↔ CRLF, any mixture) and in how the lines are
+    distributed over the file and the blocks give the SAME key list -/
+theorem delivery_same_keys_of_text (file₁ file₂ : Option Str) (dsbs₁ dsbs₂ : List Str)
+    (h : removeCR (C09.sourceText file₁ dsbs₁) = removeCR (C09.sourceText file₂ dsbs₂)) :
+    (fileKeysOf file₁).getD [] ++ (dsbs₁.map (getKeysFromString srcHexClass)).flatten =
+      (fileKeysOf file₂).getD [] ++ (dsbs₂.map (getKeysFromString srcHexClass)).flatten := by
+  rw [delivery_keys, delivery_keys]
+  exact C09.cr_placement_irrelevant _ _ _ h
+
+/-- a comment, blank or foreign line (no line-end character inside, does not look like a secret line) inserted at a
+    line boundary adds no key -/
+theorem foreign_line_adds_nothing (a b l : Str) (h10 : 10 ∉ l) (h13 : 13 ∉ l) (hl : ¬ Spec.NssKeylog.LooksLikeKey l) :
+    getKeysFromString srcHexClass (a ++ 10 :: (l ++ 10 :: b)) = getKeysFromString srcHexClass (a ++ 10 :: b) := by
+  rw [C09.parse_split_at_line_boundary, C09.parse_split_at_line_boundary, C09.parse_split_at_line_boundary,
+    C09Found.keys_single _ l h10 h13, C09.foreign_lines_ignored _ l hl]
+  rfl
+
 end C09
 
 end TLX.Props.ExportInputs
